@@ -56,4 +56,11 @@ StrRestRunes(s)   == s     \* Go string([]rune(s)[1:])
 StrQuote(s)       == s     \* Go strconv.Quote
 StrChars(s)       == <<>>  \* tuple of one-byte strings
 StrBytes(s)       == <<>>  \* tuple of byte values
+\* ---- C14 block (SaveLoad.tla) - begin
+I64ParseOk(s)        == TRUE   \* Go strconv.ParseInt(s, 0, 64) succeeds (s: unsigned digits; leading 0 = octal)
+I64Parse(s)          == s      \* its value as canonical decimal string ("" when it fails)
+F64Parse(s)          == s      \* Go strconv.ParseFloat(s, 64) of digits with an optional '.', as bits; "" when it fails
+StrIndexAny(s, i, c) == 0      \* smallest j >= i with s[j] among the chars of c, StrLen(s)+1 when none
+StrFromBytes(seq)    == ""     \* the byte string with these byte values
+\* ---- C14 block - end
 =============================================================================
